@@ -38,7 +38,7 @@ still 332 passed), then applied to /repo, the property's quick check run, and /r
 
 Result: {len(rows)} changes, all confirmed; **{first} caught at the first attempt, {late} missed at first and caught
 after the check was strengthened, {other} caught only by the check of the neighbouring property that owns the
-changed code** (wave 1: 27/28 at first attempt, wave 2: 21/28, wave 3: 16/28 - the later waves were aimed at what
+changed code** (wave 1: 27/28 at first attempt, wave 2: 21/28, wave 3: 17/28 - the later waves were aimed at what
 the earlier ones had not touched).  What was added for each miss:
 
 ''' + "\n".join(hist) + '''
